@@ -168,6 +168,8 @@ def events_B():
         if TYPES[n][1] != 'comma':        # saving an edited comma list is C10's known finding
             out.append(('edit', n))
     out.append(('save',))
+    for n in ('LineOpt', 'SocksPort'):
+        out.append(('assign-same', n))          # X = list(X): a whole-list assignment whose content equals the current view
     # one event announcing two options: a list option first, every other option second
     for n1 in ('LineOpt', 'SocksPort'):
         for n2 in B_OPTIONS:
@@ -245,6 +247,21 @@ class RunB(object):
             sim.event_bytes(ctlcodec.encode_event('CONF_CHANGED', 'multi', lines))
             sim.pump()
             self.dirty.discard(name)
+            if raced and name in getattr(self, 'assigned', {}):
+                # an explicit assignment is pending (not an edit of the list Tor had): it is what the next save sends
+                want = self.assigned.pop(name)
+                self.check()
+                if not self.viol:
+                    d = cfg.save()
+                    d.addErrback(lambda f: None)
+                    sim.pump()
+                    if sim.conf[name] != want:
+                        self.viol.append(('assignment-lost', 'portlines' if name == 'SocksPort' else 'lines',
+                                          'option %s was assigned %r (unsaved); Tor then announced %r; after save() Tor has %r (SETCONF log %r)'
+                                          % (name, want, vals, sim.conf[name], sim.setconf_log[-1:])))
+                self.viol = [(c, f + '/local-edit-pending', d) for c, f, d in self.viol]
+                self.skip = True
+                return
             if raced:
                 self.check()
                 if not self.viol:
@@ -253,6 +270,17 @@ class RunB(object):
                 self.viol = [(c, f + '/local-edit-pending', d) for c, f, d in self.viol]
                 self.skip = True
                 return
+        elif ev[0] == 'assign-same':
+            name = ev[1]
+            cur = list(getattr(cfg, name))
+            if not cur:
+                self.skip = True        # (saving an emptied list is C10's known finding)
+                return
+            setattr(cfg, name, list(cur))
+            self.assigned = getattr(self, 'assigned', {})
+            self.assigned[name] = [str(x) for x in cur]
+            self.dirty.add(name)
+            return
         elif ev[0] == 'edit':
             name = ev[1]
             kind = TYPES[name][1]
@@ -277,6 +305,7 @@ class RunB(object):
             d.addErrback(lambda f: None)
             sim.pump()
             self.dirty = set()
+            self.assigned = {}
         self.check()
 
     def check(self):
